@@ -47,6 +47,36 @@ class WithC(nn.Module):
         return self.base.h(t, y) + gc
 
 
+class Renamed(nn.Module):
+    """The same SDE exposed under other method names (mu, sigma, prior); the canonical names hold decoys."""
+
+    def __init__(self, base):
+        super().__init__()
+        self.base = base
+        self.noise_type, self.sde_type, self.spec = base.noise_type, base.sde_type, base.spec
+
+    def mu(self, t, y):
+        return self.base.f(t, y)
+
+    def sigma(self, t, y):
+        return self.base.g(t, y)
+
+    def prior(self, t, y):
+        return self.base.h(t, y)
+
+    def f(self, t, y):
+        return -3.0 * y
+
+    def g(self, t, y):
+        return 0.5 * self.base.g(t, y) + 0.1
+
+    def h(self, t, y):
+        return 2.0 * y
+
+
+NAMES = {"drift": "mu", "diffusion": "sigma", "prior_drift": "prior"}
+
+
 class UserAug(nn.Module):
     """Independent, user-level augmentation (y, l): dl = 1/2 |g^+ (f-h)|^2 dt."""
 
@@ -77,6 +107,9 @@ def _case(draw, tier):
     spec, combo = draw(solve.spec_and_combo())
     tset = draw(solve.time_setup(max_steps=12 if tier == "quick" else 32))
     exact = draw(st.booleans())
+    if exact and draw(st.sampled_from([False, False, True])):
+        # a diffusion of small magnitude: with f - h = g c the integrand is 1/2 |c|^2 whatever the scale of g
+        spec["gscale"] = draw(st.sampled_from([1e-2, 1e-4, 1e-5]))
     if exact and spec["noise_type"] in ("general", "additive") and spec["m"] > spec["d"]:
         exact = False
     return {"spec": spec, "combo": combo, "time": tset, "exact": exact,
@@ -88,7 +121,9 @@ def _case(draw, tier):
             # not compare with the un-augmented run apply)
             "via_adjoint": draw(st.sampled_from([False, False, True])),
             "extra": draw(st.sampled_from([False, False, True])),
-            "adaptive": draw(st.sampled_from([False, False, False, True]))}
+            "adaptive": draw(st.sampled_from([False, False, False, True])),
+            # drift, diffusion and prior drift supplied under other names (`names=`), decoys under the canonical ones
+            "renamed": draw(st.sampled_from([False, False, True]))}
 
 
 def strategy(tier):
@@ -103,7 +138,7 @@ def enumerate_cases(tier):
                    "time": {"t0": 0.1, "t1": 0.1 + 6 * 0.125, "dt": 0.125, "tdtype": "float64"},
                    "c": [round(rnd.uniform(-1.5, 1.5), 3) for _ in range(4)], "outs": [0.3, 0.7],
                    "entropy": rnd.randrange(2 ** 31 - 2), "via_adjoint": rnd.random() < 0.3, "extra": rnd.random() < 0.3,
-                   "adaptive": rnd.random() < 0.2}
+                   "adaptive": rnd.random() < 0.2, "renamed": rnd.random() < 0.35}
 
 
 def run_case(case):
@@ -144,30 +179,36 @@ def run_case(case):
     adaptive = bool(case.get("adaptive"))
     akw = dict(adaptive=True, rtol=1e-2, atol=1e-2, dt_min=tm["dt"] / 16) if adaptive else {}
     entry = torchsde.sdeint_adjoint if case.get("via_adjoint") else torchsde.sdeint
+    true_sde = sde                      # what the independent augmentation integrates
+    nkw = {}
+    if case.get("renamed"):
+        sde = Renamed(sde)
+        nkw = {"names": dict(NAMES)}
 
     def fail(clause, msg):
         return Result(nontrivial=True, checks=checks, fail=Fail(clause, msg, sig))
 
     with torch.no_grad():
         out = entry(sde, y0, ts, bm=mk(), method=combo["method"], dt=tm["dt"], options=opts, logqp=True,
-                    extra=bool(case.get("extra")), **akw)
+                    extra=bool(case.get("extra")), **akw, **nkw)
         checks += 1
         if len(out) != (3 if case.get("extra") else 2):
             return fail("shape", f"logqp=True, extra={bool(case.get('extra'))} returned {len(out)} values")
         ys, lq = out[0], out[1]
         if case.get("extra"):
             _, extra_ref = torchsde.sdeint(sde, y0, ts, bm=sliced(), method=combo["method"], dt=tm["dt"], options=opts,
-                                           extra=True, **akw)
+                                           extra=True, **akw, **nkw)
             checks += 1
             if len(out[2]) != len(extra_ref):
                 return fail("shape", f"extra solver state has {len(out[2])} entries with logqp, {len(extra_ref)} without")
-        ys_plain = torchsde.sdeint(sde, y0, ts, bm=sliced(), method=combo["method"], dt=tm["dt"], options=opts) \
+        ys_plain = torchsde.sdeint(sde, y0, ts, bm=sliced(), method=combo["method"], dt=tm["dt"], options=opts, **nkw) \
             if not adaptive else ys
         y0a = torch.cat([y0, torch.zeros(B, 1, dtype=dtype)], dim=1)
-        ya = torchsde.sdeint(UserAug(sde), y0a, ts, bm=mk(), method=combo["method"], dt=tm["dt"], options=opts, **akw)
+        ya = torchsde.sdeint(UserAug(true_sde), y0a, ts, bm=mk(), method=combo["method"], dt=tm["dt"], options=opts,
+                             **akw)
         ts2 = torch.stack([ts[0], ts[-1]])
         _, lq_coarse = torchsde.sdeint(sde, y0, ts2, bm=mk(), method=combo["method"], dt=tm["dt"], options=opts,
-                                       logqp=True, **akw)
+                                       logqp=True, **akw, **nkw)
 
     checks += 1
     if tuple(lq.shape) != (len(ts) - 1, B) or tuple(ys.shape) != (len(ts), B, d):
@@ -201,7 +242,7 @@ def run_case(case):
             return fail("exact_half_c_squared", f"f-h=g c with c={c.tolist()}: logqp != 1/2|c|^2 dt, rel {e_exact:.3e}")
     steps = (tm["t1"] - tm["t0"]) / tm["dt"]
     labels = [solve.combo_label(combo), "exact_variant" if case["exact"] else "generic_variant"] + \
-        [k for k in ("via_adjoint", "extra", "adaptive") if case.get(k)]
+        [k for k in ("via_adjoint", "extra", "adaptive", "renamed") if case.get(k)]
     return Result(nontrivial=len(ts) >= 3 and steps >= 3, labels=labels, checks=checks,
                   metrics={"state_err_in_eps": e_state / eps, "additivity_err": e_add, "augmentation_err": e_aug,
                            "exact_err": e_exact})
